@@ -343,6 +343,8 @@ func execOp(s *Sexp) string {
 		return execDesc(s)
 	case "internsched":
 		return execInternSched(s)
+	case "interntrace":
+		return execInternTrace(s)
 	case "sched":
 		return execSched(s)
 	case "regtrace":
